@@ -4,6 +4,8 @@ from amoco.arch.eBPF.asm import *
 
 # expose "microarchitecture" (instructions semantics)
 uarch = dict(filter(lambda kv: kv[0].startswith("i_"), locals().items()))
+# classic BPF jumps have two targets and test the accumulator:
+uarch.update(i_ja=bpf_ja, i_jeq=bpf_jeq, i_jgt=bpf_jgt, i_jge=bpf_jge, i_jset=bpf_jset)
 
 # import specifications:
 from amoco.arch.core import instruction, disassembler
